@@ -245,13 +245,15 @@ class GeckoAsyncSpaMan(ABC, AsyncTasks):
 
     async def async_reset(self) -> None:
         """Reset the spa manager"""
-        self._spa_descriptors = None
         if self._facade is not None:
             await self._facade.disconnect()
-            self._facade = None
         if self._spa is not None:
             await self._spa.disconnect()
-            self._spa = None
+        # Let go of everything in one step, only once the facade and spa have been
+        # shut down, so that the teardown notification still sees the facade
+        self._facade = None
+        self._spa = None
+        self._spa_descriptors = None
         self._spa_state = GeckoSpaState.IDLE
 
     async def async_locate_spas(
